@@ -400,6 +400,8 @@ type BlobCase struct {
 	Response  bool `json:"response"`
 	FlushMem  bool `json:"flush_memcache"`
 	Completed bool `json:"completed"`
+	// FailParts > 0: the first FailParts datastore Puts of blob parts fail (-1: all of them).
+	FailParts int `json:"fail_part_puts,omitempty"`
 }
 
 func runBlob(c *BlobCase) vh.Outcome {
@@ -409,6 +411,9 @@ func runBlob(c *BlobCase) vh.Outcome {
 	ctx := appengine.WithAPICallFunc(context.Background(), f.CallFunc(""))
 	s := cache.NewCachingStore(store.NewPersistentStore())
 	data := vh.Payload(fmt.Sprint("blob", c.Size), c.Size)
+	if c.FailParts != 0 {
+		return runBlobFault(c, f, ctx, s, data, o)
+	}
 	if c.Response {
 		in := &types.Response{BackendID: "b1", RequestID: "r1", Contents: data, StartTime: time.Now()}
 		if err := s.WriteResponse(ctx, in); err != nil {
@@ -458,6 +463,76 @@ func runBlob(c *BlobCase) vh.Outcome {
 	return o
 }
 
+// runBlobFault writes with failing part Puts: the write has to return, and if it reports success the
+// payload has to read back complete.
+func runBlobFault(c *BlobCase, f *fakeae.Fake, ctx context.Context, s types.Store, data []byte, o vh.Outcome) vh.Outcome {
+	var mu sync.Mutex
+	failed := 0
+	f.SetHook(func(ci *fakeae.CallInfo) *fakeae.AppError {
+		if !matches("part-put", ci) {
+			return nil
+		}
+		mu.Lock()
+		defer mu.Unlock()
+		if c.FailParts < 0 || failed < c.FailParts {
+			failed++
+			return &fakeae.AppError{Code: 3, Detail: "injected failure of a blob part write"}
+		}
+		return nil
+	})
+	defer f.SetHook(nil)
+	o.Classes = append(o.Classes, fmt.Sprintf("fail-part-puts=%d", c.FailParts))
+	res := make(chan error, 1)
+	go func() {
+		if c.Response {
+			res <- s.WriteResponse(ctx, &types.Response{BackendID: "b1", RequestID: "r1", Contents: data, StartTime: time.Now()})
+		} else {
+			res <- s.WriteRequest(ctx, types.NewRequest("b1", "r1", "u1@example.com", data))
+		}
+	}()
+	var err error
+	select {
+	case err = <-res:
+	case <-time.After(60 * time.Second):
+		mu.Lock()
+		n := failed
+		mu.Unlock()
+		o.Err = fmt.Errorf("writing %d bytes (response=%v) did not return within 60s after %d of its blob part writes failed", c.Size, c.Response, n)
+		o.Signature = "blob write hangs after failed part writes"
+		return o
+	}
+	mu.Lock()
+	n := failed
+	mu.Unlock()
+	o.NonTrivial = n > 0
+	if n == 0 || err != nil {
+		if err != nil {
+			o.Classes = append(o.Classes, "write-reported-error")
+		}
+		return o
+	}
+	// success reported although part writes failed: then the data has to be all there
+	f.FlushMemcache()
+	var got []byte
+	if c.Response {
+		out, rerr := s.ReadResponse(ctx, "b1", "r1")
+		if rerr != nil || out == nil {
+			return o
+		}
+		got = out.Contents
+	} else {
+		out, rerr := s.ReadRequest(ctx, "b1", "r1")
+		if rerr != nil || out == nil {
+			return o
+		}
+		got = out.Contents
+	}
+	if !bytes.Equal(got, data) {
+		o.Err = fmt.Errorf("writing %d bytes reported success although %d blob part writes failed, and reads back as %d bytes (hash %s vs %s)", c.Size, n, len(got), vh.HashBytes(got), vh.HashBytes(data))
+	}
+	return o
+}
+
 func TestPropBlobs(t *testing.T) {
 	sizes := []int{0, 1, 500, 999999, 1000000, 1000001, 1999999, 2000000, 2000001, 3000001, 3500000}
 	vh.Rapid(t, vh.Scale(150, 3000), func(rt *rapid.T) {
@@ -470,6 +545,10 @@ func TestPropBlobs(t *testing.T) {
 			c.Size = rapid.SampledFrom([]int{10999999, 11000001, 12500000, 21000001, 31000000}).Draw(rt, "hugeSize")
 		default:
 			c.Size = rapid.SampledFrom(sizes).Draw(rt, "size")
+		}
+		if rapid.IntRange(0, 5).Draw(rt, "faulty") == 0 {
+			c.FailParts = rapid.SampledFrom([]int{-1, 1, 2, 4, 5, 7}).Draw(rt, "failParts")
+			c.Size = rapid.SampledFrom([]int{1000001, 3000001, 5000000, 6500000, 12500000}).Draw(rt, "faultySize")
 		}
 		recB.Check(rt, &c, func() vh.Outcome { return runBlob(&c) })
 	})
